@@ -146,6 +146,27 @@ def gen_cases(rng, tier):
             continue
         for seq in itertools.product(atoms, repeat=n):
             add(list(seq), "enum%d" % n)
+    # round 6 (`deep3`): one chain a.b.c.d.e; a first statement of every form at every prefix, then a [header] / [[header]] at a
+    # prefix, then a dotted key continuing the chain below that header by 1 to 4 segments - so that a dotted key reaches an
+    # array-of-tables element, an inline table, a static array or a scalar at ITS second, third or fourth segment (a check
+    # applied to the first segment only was missed by the <= 3-segment enumeration: seeded change C09-r6-m1)
+    chain = [b"a", b"b", b"c", b"d", b"e"]
+    for f1 in FORMS:
+        for i in range(1, 5):
+            for f2 in ("hdr", "aot"):
+                for j in range(1, 5):
+                    for f3 in ("kv1", "kvinl", "kvarr"):
+                        for m in range(j + 1, 6):
+                            add([mk(f1, chain[:i]), mk(f2, chain[:j]), mk(f3, chain[j:m])], "deep3")
+    # ... and with a second header in between (super-table declared after the sub-table / array, then the dotted key)
+    for f1 in ("hdr", "aot"):
+        for i in range(2, 5):
+            for f2 in ("hdr", "aot"):
+                for j in range(1, i):
+                    for f3 in ("kv1", "kvinl"):
+                        for m in range(i, 6):
+                            if m > j:
+                                add([mk(f1, chain[:i]), mk(f2, chain[:j]), mk(f3, chain[j:m])], "deep3-super")
     # the same enumeration over keys that cannot be written bare (the key's text differs from every spelling of it)
     odd = [b"a b", b""]
     opaths = [(x,) for x in odd] + [(x, y) for x in odd for y in odd]
@@ -159,6 +180,9 @@ def gen_cases(rng, tier):
     # 1 / {c = 1} / {c.d = 1} / [1] - a dotted key may not enter or extend an inline table, an array or a scalar defined by an
     # earlier pair, whatever the depth at which they meet
     ipaths = [(x,) for x in alpha] + [(x, y) for x in alpha for y in alpha] + [(b"a", b"b", y) for y in (b"a", b"d")]
+    # round 6: a check that looks at the FIRST segment of a dotted key only (or at the first k) is invisible on paths of <= 3
+    # segments: paths of 4 and 5 segments running through an earlier pair's inline table / array / scalar at depth 2 and 3
+    ipaths += [(b"a", b"b", b"c", b"d"), (b"a", b"b", b"a", b"d"), (b"a", b"b", b"c", b"d", b"e")]
     ivals = [("i", 1), ("t", [([b"c"], ("i", 1))]), ("t", [([b"c", b"d"], ("i", 1))]), ("a", [("i", 1)]), ("t", []), ("a", [("t", [([b"c"], ("i", 1))])])]
     iatoms = [(list(pth), v) for pth in ipaths for v in ivals]
     for n in (1, 2, 3):
